@@ -4,6 +4,7 @@
 import os
 import sys
 import subprocess
+import codecs
 import io
 from io import StringIO
 import inspect
@@ -166,20 +167,24 @@ class CmdAction(BaseAction):
         else:
             # line buffered
             read = lambda: input_.readline()
+        # decode incrementally: a multi-byte sequence may be split between two reads
+        decoder = codecs.getincrementaldecoder(self.encoding)(self.decode_error)
         while True:
             try:
-                line = read().decode(self.encoding, self.decode_error)
+                data = read()
+                line = decoder.decode(data, final=not data)
             except Exception:
                 # happens when fails to decoded input
                 process.terminate()
                 input_.read()
                 raise
-            if not line:
+            if line:
+                capture.write(line)
+                if realtime:
+                    realtime.write(line)
+                    realtime.flush()  # required if on byte buffering mode
+            if not data:
                 break
-            capture.write(line)
-            if realtime:
-                realtime.write(line)
-                realtime.flush()  # required if on byte buffering mode
 
 
     def execute(self, out=None, err=None):
